@@ -435,9 +435,17 @@ func vCat(e int) int {
 	return vENOTDIR
 }
 
+// what the last harness run chose (for the native twins in tree_twin_test.go)
+var (
+	vTInit *vTree
+	vTArg  string
+	vTFlag bool
+)
+
 func vTSetup() (*Client, *vTree) {
 	t := vSymTree()
 	vTSrv = t.clone()
+	vTInit = t.clone()
 	vTHandles, vTPos, vTReqs = nil, nil, 0
 	vPeer = vTreePeer
 	return vPeerClient(), t
@@ -452,10 +460,12 @@ func vTHandlesClosed() bool {
 	return true
 }
 
+//verif:samples 40
 func vh_C05_tree_mkdirall() {
 	c, ref := vTSetup()
 	defer vPeerDone(c)
 	p := vTArgs[vChoice(len(vTArgs))]
+	vTArg = p
 	err := c.MkdirAll(p)
 	want := ref.osMkdirAll(p)
 	vAssert(vCat(want) == vTCategory(err), "MkdirAll: same outcome category as os.MkdirAll on an identical tree")
@@ -463,10 +473,12 @@ func vh_C05_tree_mkdirall() {
 	vEmit("want", want)
 }
 
+//verif:samples 40
 func vh_C05_tree_removeall() {
 	c, ref := vTSetup()
 	defer vPeerDone(c)
 	p := vTArgs[vChoice(len(vTArgs))]
+	vTArg = p
 	err := c.RemoveAll(p)
 	want := ref.osRemoveAll(p)
 	vAssert(vCat(want) == vTCategory(err), "RemoveAll: same outcome category as os.RemoveAll on an identical tree (a missing path is reported: documented)")
@@ -475,13 +487,16 @@ func vh_C05_tree_removeall() {
 	vEmit("want", want)
 }
 
+//verif:samples 40
 func vh_C05_tree_remove() {
 	c, ref := vTSetup()
 	defer vPeerDone(c)
 	p := vTArgs[vChoice(len(vTArgs))]
+	vTArg = p
 	var err error
 	var want int
-	if vNondetBool() {
+	vTFlag = vNondetBool()
+	if vTFlag {
 		err = c.Remove(p)
 		want = ref.remove(p)
 	} else {
@@ -492,10 +507,12 @@ func vh_C05_tree_remove() {
 	vAssert(vTSrv.equal(ref), "Remove/RemoveDirectory: leaves the tree as os.Remove does")
 }
 
+//verif:samples 40
 func vh_C05_tree_readdir() {
 	c, ref := vTSetup()
 	defer vPeerDone(c)
 	p := vTArgs[vChoice(len(vTArgs))]
+	vTArg = p
 	got, err := c.ReadDir(p)
 	want, e := ref.readdir(p)
 	vAssert(vCat(e) == vTCategory(err), "ReadDir: same outcome category as os.ReadDir")
@@ -515,8 +532,8 @@ func vh_C05_tree_readdir() {
 // Glob: the definition filepath.Glob follows - the pattern is split at the
 // separators, each element is a path.Match pattern for one name, and the result
 // is every entry lstat can reach (through directory links too) whose elements
-// match one by one. A malformed element is reported as ErrBadPattern if Glob
-// gets as far as applying it (filepath.Glob is as lazy).
+// match one by one. A pattern that is malformed as a whole is ErrBadPattern
+// at once.
 var vTComps = []string{"a", "b", "c", "d", "e", "l"}
 
 func (t *vTree) candidates(depth int) []string {
@@ -551,6 +568,7 @@ func vContainsAny(s, chars string) bool {
 }
 
 //verif:redirect strings.ContainsAny vContainsAny
+//verif:samples 40
 func vh_C05_tree_glob() {
 	c, ref := vTSetup()
 	defer vPeerDone(c)
@@ -584,8 +602,14 @@ func vh_C05_tree_glob() {
 			bad = true
 		}
 	}
+	vTArg = pat
 	got, err := c.Glob(pat)
-	if bad {
+	if _, werr := path.Match(pat, ""); werr != nil {
+		// malformed as a whole: reported before anything is looked at, as filepath.Glob does
+		vAssert(err == ErrBadPattern && len(got) == 0, "Glob: a malformed pattern is reported as ErrBadPattern")
+	} else if bad {
+		// well-formed as a whole, but an element on its own is not (a class or an
+		// escape spanning a separator): both Globs notice only if they get there
 		vAssert(err == nil || err == ErrBadPattern, "Glob: only ErrBadPattern is ever returned")
 	} else {
 		vAssert(err == nil, "Glob: a well-formed pattern gives no error")
